@@ -207,6 +207,24 @@ func (s *session) recover() (err error) {
 	return nil
 }
 
+// rotationRecord returns a record carrying only the journal and sequence
+// numbers of r. It is what a commit passes to newManifest when the manifest is
+// rotated: the new manifest snapshots the tables of the new version itself, but
+// the journal/sequence numbers being committed must not be dropped.
+func rotationRecord(r *sessionRecord) *sessionRecord {
+	nr := &sessionRecord{}
+	if r.has(recJournalNum) {
+		nr.setJournalNum(r.journalNum)
+	}
+	if r.has(recPrevJournalNum) {
+		nr.setPrevJournalNum(r.prevJournalNum)
+	}
+	if r.has(recSeqNum) {
+		nr.setSeqNum(r.seqNum)
+	}
+	return nr
+}
+
 // Commit session; need external synchronization.
 func (s *session) commit(r *sessionRecord, trivial bool) (err error) {
 	v := s.version()
@@ -228,7 +246,7 @@ func (s *session) commit(r *sessionRecord, trivial bool) (err error) {
 		err = s.newManifest(r, nv)
 	} else if s.manifest.Size() >= s.o.GetMaxManifestFileSize() {
 		// pass nil sessionRecord to avoid over-reference table file
-		err = s.newManifest(nil, nv)
+		err = s.newManifest(rotationRecord(r), nv)
 	} else {
 		err = s.flushManifest(r)
 	}
